@@ -10,13 +10,19 @@
        both end points evaluated ->
        los / losc / loss / ask_points of (set_data init (get_data s)) = those of s
    needs the canonical-form result "for factor = 1 the state is a function of
-   (data, pending)" (same dependency as C11_l1d_order_irrelevant, missing:
-   the loss-table invariant of Proofs/L1DProofs.v).  Proved: the data
-   dictionary is rebuilt exactly, after EVERY history (C13_l1d_data_roundtrip). *)
+   (data, pending)".  Proved: the data dictionary is rebuilt exactly, after
+   EVERY history (C13_l1d_data_roundtrip); and, from the canonical-form theorem
+   of Proofs/L1DCanonical.v (for factor 1 the loss table is a function of the
+   data), C13_l1d_restored_losses: the restored learner has the same y-scale,
+   the same loss table `losses` and -- the original having nothing pending --
+   the same loss(real=True) as the original, after every legal history
+   (scalar outputs, no NaN).  Still missing: losses_combined / ask of the
+   restored learner (no pending points: losc = los by construction of the batch
+   path, not proved here), vector outputs. *)
 From Coq Require Import ZArith QArith Qcanon.
 From AV Require Import Base.Prelude Model.AvgSpec Model.Seq Proofs.SeqProofs Proofs.OrderProofs
   Proofs.RoundtripProofs.
-From AV Require Model.L1D Proofs.OrderL1D.
+From AV Require Model.L1D Proofs.OrderL1D Proofs.L1DBracket Proofs.L1DCanonical Proofs.L1DRestore.
 Local Open Scope nat_scope.
 
 (* ---------------- SequenceLearner ---------------- *)
@@ -59,6 +65,19 @@ Section L1D.
     forall h : list (op num),
     data (set_data init (l1d_get_data num (run init h))) = data (run init h).
   Proof. exact (l1d_data_roundtrip num add sub mul div ltb eqb zero one inf neg_inf is_nan is_inf round12 of_nat Lf P). Qed.
+
+  (* load / copy_from with exact loss recomputation (factor 1): beyond the data,
+     the restored learner has the original's y-scale, loss table and loss *)
+  Theorem C13_l1d_restored_losses : OrdLaws ltb eqb is_nan ->
+    L1DBracket.SubLaws sub ltb zero -> (forall x, mul (factor P) x = x) ->
+    forall h : list (op num),
+    L1DCanonical.clegal add sub mul div ltb eqb zero one inf neg_inf is_nan is_inf round12 of_nat Lf P init h = true ->
+    let s := run init h in let r := set_data init (data s) in
+    L1DCanonical.clegal add sub mul div ltb eqb zero one inf neg_inf is_nan is_inf round12 of_nat Lf P init [TellMany (data s) false] = true ->
+    data r = data s /\ sy r = sy s /\ los r = los s /\
+    (pend s = [] -> L1D.loss sub div ltb eqb inf is_nan is_inf round12 P r true =
+                    L1D.loss sub div ltb eqb inf is_nan is_inf round12 P s true).
+  Proof. exact (@L1DRestore.restored_losses num add sub mul div ltb eqb zero one inf neg_inf is_nan is_inf round12 of_nat Lf P). Qed.
 End L1D.
 
 Theorem C13_l1d_data_roundtrip_Qc : forall (Lf : list (option Qc) -> list (option (L1D.Y Qc)) -> Qc)
@@ -134,10 +153,22 @@ Example C13_l1d_example :
   L1D.los r = L1D.los s /\ L1D.losc r = L1D.losc s.
 Proof. vm_compute. repeat split. Qed.
 
+(* non-vacuity of C13_l1d_restored_losses: the example history is legal in the
+   sense of the canonical-form theorem, and so is its restore *)
+Example C13_l1d_restored_example :
+  let h := [L1D.Tell 64 (L1D.YS 1); L1D.Tell 16 (L1D.YS 3); L1D.TellPending 40; L1D.Tell 0 (L1D.YS 2);
+            L1D.Tell 40 (L1D.YS (-5)); L1D.Tell 32 (L1D.YS 8)]%Z in
+  let cl := L1DCanonical.clegal Z.add Z.sub Z.mul Z.div Z.ltb Z.eqb 0%Z 1%Z 1000000%Z (-1000000)%Z
+              (fun _ => false) (fun _ => false) (fun x => x) Z.of_nat ex_L ex_P in
+  cl ex_init h = true /\ cl ex_init [L1D.TellMany (L1D.data (ex_run ex_init h)) false] = true.
+Proof. vm_compute. split; reflexivity. Qed.
+
 Print Assumptions C13_seq_roundtrip.
 Print Assumptions C13_avg_roundtrip.
 Print Assumptions C13_avg_roundtrip_fields.
 Print Assumptions C13_l1d_data_roundtrip.
 Print Assumptions C13_l1d_data_roundtrip_Qc.
+Print Assumptions C13_l1d_restored_losses.
+Print Assumptions C13_l1d_restored_example.
 Print Assumptions C13_datasaver_roundtrip.
 Print Assumptions C13_balancing_roundtrip.
